@@ -127,9 +127,68 @@ def one_iteration_of_while(fn, loop_index, havoc, result_names):
                       dropped=dropped, body=[ast.unparse(s)[:120] for s in loop.body])
 
 
-def instantiate(code, fn, havoc_fn, result_fn=lambda d: d):
+def one_iteration_of_nested_while(fn, cond_pred, havoc, restrict_for=None):
+    """Cuts the unique `while` loop of fn (current source, at any nesting depth) whose condition satisfies cond_pred:
+
+            <name> = __havoc__("<name>", <name>, dict(locals()))   # for every carried name: arbitrary state satisfying the
+                                                                    # invariant (the hook also checks the invariant on the
+                                                                    # entry state it is handed: the base case)
+            if <loop condition>:
+                <loop body>                                         # ONE iteration of the repository's text
+
+    With restrict_for=pred, every `for` loop that encloses the cut loop and whose iterable text satisfies pred gets its iterable wrapped,
+    `for d in __restrict__(<iterable>)`, so that the caller can run ONE chosen iteration of an enclosing loop (the
+    iterations it skips are replaced by the caller's invariant on the state they would have produced).
+
+    Everything after the loop is kept: it runs from `invariant and not condition` (exit) and, superfluously, from the
+    state after one iteration.  Whatever the contract asserts at the end therefore has to hold at loop exit for ANY
+    number of iterations provided it is implied by the invariant, and is the inductive step for the invariant itself."""
+    src = textwrap.dedent(inspect.getsource(fn))
+    tree = ast.parse(src)
+    fnode = tree.body[0]
+    found = []
+
+    class T(ast.NodeTransformer):
+        def visit_While(self, node):
+            self.generic_visit(node)
+            if not cond_pred(ast.unparse(node.test)):
+                return node
+            if node.orelse:
+                raise CutError(f"{fn.__qualname__}: while-else is not handled")
+            for sub in ast.walk(node):
+                if isinstance(sub, (ast.Break, ast.Continue)):
+                    raise CutError(f"{fn.__qualname__}: break/continue inside the loop to cut")
+            found.append(node)
+            hv = [ast.parse(f"{nm} = __havoc__({nm!r}, {nm}, dict(locals()))").body[0] for nm in havoc]
+            return hv + [ast.If(test=node.test, body=node.body, orelse=[])]
+
+        def visit_For(self, node):
+            before = len(found)
+            self.generic_visit(node)
+            # only a loop that ENCLOSES the cut while-loop is restricted
+            if restrict_for is not None and len(found) > before and restrict_for(ast.unparse(node.iter)):
+                restricted.append(ast.unparse(node.iter))
+                node.iter = ast.Call(func=ast.Name(id="__restrict__", ctx=ast.Load()), args=[node.iter], keywords=[])
+            return node
+    restricted = []
+    fnode = T().visit(fnode)
+    if len(found) != 1:
+        raise CutError(f"{fn.__qualname__}: {len(found)} while-loops match the wanted condition")
+    fnode.decorator_list = []
+    tree.body[0] = fnode
+    ast.fix_missing_locations(tree)
+    code = compile(tree, filename=f"<loop-cut of {fn.__qualname__}>", mode="exec")
+    loop = found[0]
+    return code, dict(function=fn.__qualname__, loop_line=loop.lineno, condition=ast.unparse(loop.test), havocked=list(havoc),
+                      dropped=["iterations 2.. of the loop (one arbitrary iteration from an arbitrary invariant state kept)"] +
+                              [f"iterations of `for .. in {r}` other than the one selected by the caller" for r in restricted],
+                      restricted=restricted, body=[ast.unparse(s)[:120] for s in loop.body])
+
+
+def instantiate(code, fn, havoc_fn, result_fn=lambda d: d, restrict_fn=lambda it: it):
     ns = dict(fn.__globals__)
     ns["__havoc__"] = havoc_fn
     ns["__cut_result__"] = result_fn
+    ns["__restrict__"] = restrict_fn
     exec(code, ns)
     return ns[fn.__name__]
